@@ -7,9 +7,11 @@
     1. takes the first snapshot as the context before the text,
     2. explains every following snapshot as the effect of one (at most two) model events on the model state
        (search over the finite candidate set read off the snapshot) — the observed trace must be a run of the model,
-    3. applies the verdict (`rej`: catch blocks + rollback + parsingEnd; `acc`: parsingEnd) and answers
+    3. applies the verdict (`rej`: catch blocks + rollback + parsingRevert (the journal) + parsingEnd; `acc`: parsingEnd) and answers
          model=<summary of the final model context> spec=<summary of the pre-existing part demanded by C11>
-         kf=<finding region decided from the events | -> ev=<the events found> [note=…]
+         kf=<finding region decided from the events | -> fr=<1: the text completed a redefinition of a pre-existing
+         function before its error (the region of the repaired finding C11.complete_redefinition_survives_reject) | 0>
+         ev=<the events found> [note=…]
   Summary format = snapshot format.
 -/
 import BlocV.Model.ParseCtx
@@ -223,10 +225,15 @@ def walk (cond0 : Nat) : St → List Snap → Nat → List Ev → List Ev × St 
     | none => (acc, st, some k)
 
 def kfOf (c0 c' : Ctx) (evs : List Ev) : String :=
-  -- the remaining finding: a redefinition of a pre-existing function was COMPLETED before the error, and it is
-  -- still installed afterwards
+  -- the repaired finding: a redefinition of a pre-existing function was COMPLETED before the error, and it is
+  -- still installed afterwards. With the journal the model never says so any more (Proofs/C11: reject_restores_functions);
+  -- the test stays so that a model change that loses the revert shows up as a region nobody has listed.
   if redefinitionCompleted djb c0 (St.init c0) evs && !decide (FnsPreserved c0 c')
   then "C11.complete_redefinition_survives_reject" else "-"
+
+/-- the region of the repaired finding, for the coverage statistics of the check -/
+def formerRegion (c0 : Ctx) (evs : List Ev) : String :=
+  if redefinitionCompleted djb c0 (St.init c0) evs then "1" else "0"
 
 /-- types tried for an unobserved trailing upgrade (which one it was does not matter once it is restored) -/
 def someTypes : List RegTy :=
@@ -243,7 +250,7 @@ def hiddenReg (st : St) (cond0 : Nat) (final : Snap) : Option (Ev × Ctx) :=
   (news ++ ups).findSome? fun e =>
     match step djb st e with
     | .ok st' =>
-      let c' := parsingEnd djb (unwind st')
+      let c' := rejectCtx djb st'
       if st'.ctx != st.ctx && obs c' cond0 == final then some (e, c') else none
     | .error _ => none
 
@@ -332,7 +339,7 @@ def handlePctx (verdict : String) (trace : String) (finalStr : String) (heads : 
     let cond0 := s0.cond
     let (evs0, st, stuck) := walk cond0 (St.init c0) rest 1 []
     let final0 : Option Ctx :=
-      if verdict == "rej" then some (parsingEnd djb (unwind st))
+      if verdict == "rej" then some (rejectCtx djb st)
       else if st.stack.isEmpty && st.child.isNone then some (parsingEnd djb st.ctx) else none
     let specSnap : Snap := { (obs c0 cond0) with bk := 0 }
     match final0 with
@@ -360,6 +367,7 @@ def handlePctx (verdict : String) (trace : String) (finalStr : String) (heads : 
         else " note=loop-heads-of-the-trace-are-not-those-of-the-text:" ++ ",".intercalate lh
       "model=" ++ showSnap (obs c' cond0) ++ " spec=" ++ showSnap specSnap
         ++ " kf=" ++ (if verdict == "rej" then kfOf c0 c' evs else "-")
+        ++ " fr=" ++ (if verdict == "rej" then formerRegion c0 evs else "0")
         ++ " ev=" ++ (if evs.isEmpty then "-" else ",".intercalate (evs.map showEv)) ++ (if hidden then "(unobserved)" else "")
         ++ (if viaParse || stuck.isSome then "" else " note=walk-differs-from-parseText") ++ note
 
@@ -385,6 +393,7 @@ def handleEvents (snap0 : String) (evs : String) : String :=
     let c0 := ctxOfSnap s0
     match parseText djb c0 es with
     | .reject c' => "model=rej " ++ showSnap (obs c' s0.cond) ++ " spec=" ++ showSnap { (obs c0 s0.cond) with bk := 0 } ++ " kf=" ++ kfOf c0 c' es
+        ++ " fr=" ++ formerRegion c0 es
     | .accept c' => "model=acc " ++ showSnap (obs c' s0.cond) ++ " kf=-"
   | _, _ => "bad-op"
 
@@ -401,7 +410,7 @@ hypotheses of `later_parse_independent_of_rejected` hold for it (`hyp<k>`): the 
 def explainText (c : Ctx) (cond0 : Nat) (rest : List Snap) (rej : Bool) (finalStr : String) : List Ev × Option Ctx × String :=
   let (evs0, st, stuck) := walk cond0 (St.init c) rest 1 []
   let final0 : Option Ctx :=
-    if rej then some (parsingEnd djb (unwind st))
+    if rej then some (rejectCtx djb st)
     else if st.stack.isEmpty && st.child.isNone then some (parsingEnd djb st.ctx) else none
   match final0 with
   | none => (evs0, none, "open-clause-at-accept")
@@ -456,6 +465,7 @@ def histLoop (cond0 : Nat) : Option Ctx → List (String × String × String × 
           "carry" ++ tag ++ "=" ++ (if carryOk then "ok" else "DIFF:" ++ showSnap (obs (parsingBegin c) cond0)),
           "nl" ++ tag ++ "=" ++ (if nlOk then "ok" else "DIFF:" ++ (if o.ok then "acc" else "rej") ++ ":" ++ showSnap (obs o.ctx cond0)),
           "kf" ++ tag ++ "=" ++ (if kf then "C11.complete_redefinition_survives_reject" else "-"),
+          "fr" ++ tag ++ "=" ++ (if rej then formerRegion c evs else "0"),
           "note" ++ tag ++ "=" ++ note, "ev" ++ tag ++ "=" ++ (if evs.isEmpty then "-" else ",".intercalate (evs.map showEv))]
         histLoop cond0 (some c') rest (k + 1) (acc ++ [⟨rej, nevs, c, c', kf⟩]) (out ++ line)
 
@@ -486,8 +496,8 @@ def handleHist (items : List String) : String :=
           let withV := others.map fun u => !u.rej
           let x := leftOver t.before t.after
           let later := texts.drop (k + 1)
-          let hyp := !redefinitionCompleted djb t.before (St.init t.before) (compile djb (St.init t.before) t.nevs)
-            && later.all fun u => u.nevs.all (NEv.avoids x)
+          -- the hypothesis of `later_parse_independent_of_rejected` (no proviso on redefinitions any more)
+          let hyp := later.all fun u => u.nevs.all (NEv.avoids x)
           let tag := toString (k + 1)
           ["wo" ++ tag ++ "=" ++ String.ofList (r.1.map fun b => if b then 'a' else 'r'),
            "wf" ++ tag ++ "=" ++ showSnap (obs r.2 cond0),
